@@ -48,7 +48,11 @@ try:
     for pkg in meta.get('existing_tests', []):
         full = 'com.tuntun.rangers/node/' + pkg.strip('./').rstrip('/')
         want = {t.split('::')[1] for t in base['stable_pass'] if t.split('::')[0] == full}
-        rc, out = sh(['go', 'test', '-json', '-vet=off', '-count=1', '-timeout', '25m', pkg], timeout=2400)
+        if not want:
+            continue
+        tops = sorted({t.split('/')[0] for t in want})
+        # only the baseline's stable tests are run (several packages contain tests that hang or loop at HEAD)
+        rc, out = sh(['go', 'test', '-json', '-vet=off', '-count=1', '-timeout', '25m', '-run', '^(' + '|'.join(tops) + ')$', pkg], timeout=2400)
         passed = set()
         for ln in out.splitlines():
             try: d = json.loads(ln)
